@@ -44,6 +44,8 @@ type oblResult struct {
 	Text    string   `json:"text,omitempty"`
 	verdicts []*Verdict
 	fc       *FnCtx
+	cex      *Cex
+	cexLog   []string
 }
 
 func loadJSON(path string, v interface{}) error {
@@ -114,6 +116,7 @@ type PropResult struct {
 	Obls       []*oblResult
 	Errors     []string
 	Funcs      []string
+	Replayable []string
 	Trusted    []string
 	Axioms     []string
 	Abstract   []string
@@ -197,6 +200,9 @@ func runProperty(repo, verif, prop string, cfg *PropCfg, tier string, overlay ma
 			continue
 		}
 		res.Funcs = append(res.Funcs, k)
+		if ok, _ := cexEligible(e.Funcs[k]); ok {
+			res.Replayable = append(res.Replayable, k)
+		}
 		if overlay != nil {
 			// selftest: verification is modular — only functions whose own source file is patched can change verdict
 			if fn := e.Funcs[k]; fn != nil && fn.Pos().IsValid() {
@@ -409,6 +415,39 @@ func runProperty(repo, verif, prop string, cfg *PropCfg, tier string, overlay ma
 		}
 	}
 	sort.Strings(res.Missing)
+	// counterexample search: for every function with a failed obligation, try to turn a solver model into an input on
+	// which the real function violates its own ensures (replay.go); one search per function
+	if overlay == nil || os.Getenv("GOVC_CEX_SELFTEST") != "" {
+		searched := map[*FnCtx]*Cex{}
+		logsOf := map[*FnCtx][]string{}
+		for _, r := range res.Obls {
+			if r.Status == "proved" || r.fc == nil || r.fc.top == nil || strings.Contains(r.Name, "#asis:") {
+				continue
+			}
+			if _, done := searched[r.fc]; !done {
+				var failing []*Verdict
+				for _, r2 := range res.Obls {
+					if r2.fc == r.fc && r2.Status != "proved" {
+						for _, v := range r2.verdicts {
+							if v.Status != "proved" {
+								failing = append(failing, v)
+							}
+						}
+					}
+				}
+				if ok, why := cexEligible(r.fc.top); !ok {
+					searched[r.fc] = nil
+					logsOf[r.fc] = []string{"no replay for this function: " + why}
+				} else {
+					var logs []string
+					searched[r.fc] = e.searchCex(r.fc, failing, work, &logs)
+					logsOf[r.fc] = logs
+				}
+			}
+			r.cex = searched[r.fc]
+			r.cexLog = logsOf[r.fc]
+		}
+	}
 	if verbose {
 		for _, r := range res.Obls {
 			if r.Status != "proved" {
@@ -599,6 +638,7 @@ func (res *PropResult) writeEvidence(verif, prop string, cfg *PropCfg, tier stri
 			"checker_cmd":              fmt.Sprintf("bin/govc check --property %s --tier %s", prop, tier),
 			"trusted_base":             trusted,
 			"functions_under_contract": res.Funcs,
+			"replayable_functions":     res.Replayable,
 			"queries":                  res.Queries,
 			"cover_queries":            res.Covers,
 			"backends":                 solverCount,
